@@ -107,9 +107,12 @@ Admit(q, p) == IF Len(Without(q, p)) >= Window THEN Append(Tail(Without(q, p)), 
 Evicts(q, p) == IF Len(Without(q, p)) >= Window THEN {Head(Without(q, p))} ELSE {}
 Xm(id) == (CHOOSE x \in xmits : x[1] = id)[2]
 Levels == {"sess", "reg"}
-Kinds == {"perm", "once", "retTrue", "waitfor"}      \* all but "perm" remove themselves when they are called
+\* "once", "retTrue", "waitfor" remove themselves when they are called; "asyncq" is a subscribe_async() consumer: its
+\* messages are parked in a queue (field q) until it drains them -- a SLOW consumer still gets every one, once, in order
+Kinds == {"perm", "once", "retTrue", "waitfor", "asyncq"}
+SelfRemoving(k) == k \in {"once", "retTrue", "waitfor"}
 NoCalls == [l \in Levels |-> [i \in 1..Len(subs[l]) |-> 0]]
-NoOut == [acks |-> <<>>, deliver |-> FALSE, byname |-> TRUE, pong |-> FALSE, open |-> FALSE, tx |-> {}, completed |-> {}, failed |-> {}, calls |-> NoCalls]
+NoOut == [acks |-> <<>>, drained |-> <<>>, deliver |-> FALSE, byname |-> TRUE, pong |-> FALSE, open |-> FALSE, tx |-> {}, completed |-> {}, failed |-> {}, calls |-> NoCalls]
 
 \* --- the dispatch loop (Event.notify) over the live extra subscribers of one level ---
 \* positions (in subs[l]) of the subscribers that are called when one message is dispatched
@@ -118,19 +121,22 @@ RemoveAt(q, i) == SubSeq(q, 1, i - 1) \o SubSeq(q, i + 1, Len(q))
 RECURSIVE WalkLive(_, _, _, _)
 WalkLive(ss, q, i, called) ==           \* q: live list (positions), mutated while it is walked by index
     IF i > Len(q) THEN called
-    ELSE IF ss[q[i]].k # "perm" THEN WalkLive(ss, RemoveAt(q, i), i + 1, called \cup {q[i]})
+    ELSE IF SelfRemoving(ss[q[i]].k) THEN WalkLive(ss, RemoveAt(q, i), i + 1, called \cup {q[i]})
     ELSE WalkLive(ss, q, i + 1, called \cup {q[i]})
 Called(ss) == IF IterateLive THEN WalkLive(ss, LivePos(ss), 1, {})
               ELSE {i \in 1..Len(ss) : ss[i].live}          \* a snapshot is walked: removals do not disturb it
 \* what the property demands: every live subscriber, once
 MustCall(ss) == {i \in 1..Len(ss) : ss[i].live}
-Dispatch(deliver, match) ==
+Dispatch(deliver, match, pid) ==
     IF deliver /\ match
     THEN /\ subs' = [l \in Levels |-> [i \in 1..Len(subs[l]) |->
-                        IF subs[l][i].live /\ subs[l][i].k # "perm" THEN [subs[l][i] EXCEPT !.live = FALSE] ELSE subs[l][i]]]
+                        IF subs[l][i].live /\ SelfRemoving(subs[l][i].k) THEN [subs[l][i] EXCEPT !.live = FALSE]
+                        ELSE IF subs[l][i].live /\ subs[l][i].k = "asyncq" THEN [subs[l][i] EXCEPT !.q = Append(@, pid)]
+                        ELSE subs[l][i]]]
     ELSE UNCHANGED subs
 CallsOf(deliver, match) == [l \in Levels |-> [i \in 1..Len(subs[l]) |->
-                               IF deliver /\ match /\ i \in MustCall(subs[l]) THEN 1 ELSE 0]]
+                               \* (a parked message is not a call the harness can see: it shows when the queue is drained)
+                               IF deliver /\ match /\ i \in MustCall(subs[l]) /\ subs[l][i].k # "asyncq" THEN 1 ELSE 0]]
 
 InitWith(a) ==
         /\ alive = a /\ abandoned = {} /\ epoch = 0 /\ floor = 0 /\ pongs = 0 /\ openSeen = {}
@@ -176,13 +182,13 @@ Recv(p, rel, acks, aid, match, redeliver) ==
             /\ rR' = Inc(rR, p, 1) /\ aR' = Inc(aR, p, 1)
             /\ dR' = Inc(dR, p, IF deliver THEN 1 ELSE 0)
             /\ UNCHANGED <<rU, dU>>
-            /\ Dispatch(deliver, match)
-            /\ out' = [acks |-> <<p>>, deliver |-> deliver, byname |-> TRUE, pong |-> FALSE, open |-> forgotten, tx |-> {}, completed |-> hit, failed |-> {},
+            /\ Dispatch(deliver, match, p)
+            /\ out' = [acks |-> <<p>>, drained |-> <<>>, deliver |-> deliver, byname |-> TRUE, pong |-> FALSE, open |-> forgotten, tx |-> {}, completed |-> hit, failed |-> {},
                        calls |-> CallsOf(deliver, match)]
        ELSE /\ rU' = Inc(rU, p, 1) /\ dU' = Inc(dU, p, 1)
             /\ UNCHANGED <<seen, evN, rR, aR, dR, lastId, ids>>
-            /\ Dispatch(TRUE, match)
-            /\ out' = [acks |-> <<>>, deliver |-> TRUE, byname |-> TRUE, pong |-> FALSE, open |-> FALSE, tx |-> {}, completed |-> hit, failed |-> {}, calls |-> CallsOf(TRUE, match)]
+            /\ Dispatch(TRUE, match, p)
+            /\ out' = [acks |-> <<>>, drained |-> <<>>, deliver |-> TRUE, byname |-> TRUE, pong |-> FALSE, open |-> FALSE, tx |-> {}, completed |-> hit, failed |-> {}, calls |-> CallsOf(TRUE, match)]
 
 (* StartPingCheck(OldestUnacked = oldest) from the peer: an unreliable packet of its own name (only    *)
 (* wildcard subscribers see it); the endpoint answers with one CompletePingCheck taking ID cid.       *)
@@ -195,10 +201,17 @@ Ping(oldest, cid) ==
     /\ out' = [NoOut EXCEPT !.deliver = TRUE, !.byname = FALSE, !.pong = TRUE,
                             !.tx = {[id |-> cid, rel |-> FALSE, resent |-> FALSE]}]
 
+(* The slow consumer i of level l finally reads its queue: it gets everything parked for it, in order.   *)
+Drain(l, i) ==
+    /\ i \in 1..Len(subs[l]) /\ subs[l][i].k = "asyncq" /\ subs[l][i].live
+    /\ subs' = [subs EXCEPT ![l][i].q = <<>>]
+    /\ UNCHANGED <<seen, evN, rR, aR, dR, rU, dU, pend, done, failed, relIssued, ackedSince, xmits, ids, lastId, life, aux>>
+    /\ out' = [NoOut EXCEPT !.drained = subs[l][i].q]
+
 (* A further subscriber of kind k is registered at level l (after everything registered there before). *)
 Subscribe(l, k) ==
     /\ alive # "dead"
-    /\ subs' = [subs EXCEPT ![l] = Append(@, [k |-> k, live |-> TRUE])]
+    /\ subs' = [subs EXCEPT ![l] = Append(@, [k |-> k, live |-> TRUE, q |-> <<>>])]
     /\ UNCHANGED <<seen, evN, rR, aR, dR, rU, dU, pend, done, failed, relIssued, ackedSince, xmits, ids, lastId, life, aux>>
     /\ out' = [NoOut EXCEPT !.calls = [ll \in Levels |-> [i \in 1..Len(subs'[ll]) |-> 0]]]
 
@@ -279,8 +292,11 @@ DispatchReachesAll == \A l \in Levels : Called(subs[l]) = MustCall(subs[l])
 \* a self-removing subscriber is called at most once: once dead it stays dead, and only a call kills it
 OneShotOnce == [][\A l \in Levels : \A i \in 1..Len(subs[l]) :
                     /\ (~subs[l][i].live => ~subs'[l][i].live /\ out'.calls[l][i] = 0)
-                    /\ (subs[l][i].live /\ subs[l][i].k # "perm" => (subs'[l][i].live <=> out'.calls[l][i] = 0))
-                    /\ (subs[l][i].k = "perm" => subs'[l][i].live)]_vars
+                    /\ (subs[l][i].live /\ SelfRemoving(subs[l][i].k) => (subs'[l][i].live <=> out'.calls[l][i] = 0))
+                    /\ (~SelfRemoving(subs[l][i].k) => subs'[l][i].live)]_vars
+\* a slow consumer loses nothing: what is parked for it plus what it drained is every message dispatched since it subscribed
+\* (ParkedInOrder: parked reliable packets are distinct unless one was dispatched again after leaving the memory)
+ParkedShape == \A l \in Levels : \A i \in 1..Len(subs[l]) : subs[l][i].k # "asyncq" => subs[l][i].q = <<>>
 
 \* a reliable send is in exactly one of the three states
 Partition == /\ PendIds \cap done = {} /\ PendIds \cap failed = {} /\ done \cap failed = {}
